@@ -258,3 +258,184 @@ func TestVerifC01Scenarios(t *testing.T) {
 		}
 	}
 }
+
+// ---------------------------------------------------------------- Restart from outside while Receive is in flight
+type c01InflightOut struct {
+	Scenario      string   `json:"scenario"`
+	Completed     bool     `json:"completed"`
+	Why           string   `json:"why"`
+	Overlap       bool     `json:"overlap"`
+	MaxConcurrent int32    `json:"max_concurrent"`
+	OverlapAt     []string `json:"overlap_at"`
+	RestartWaited bool     `json:"restart_waited_for_the_turn"`
+	StateDuring   string   `json:"state_while_receive_in_flight"`
+	HandledOnce   bool     `json:"handled_once"`
+}
+
+// TestVerifC01RestartInFlight: a Receive is in progress (held) when Restart is called from another goroutine.
+// Restart must not let the new incarnation handle anything (PostStart, a fresh Tell) before the in-flight
+// Receive has returned: its wait loop on the dispatch state is what guarantees that.
+func TestVerifC01RestartInFlight(t *testing.T) {
+	w := newVerifWriter(t, "c01_inflight_out.jsonl")
+	defer w.close()
+	out := c01InflightOut{Scenario: "Restart(pid) from outside while Receive(m1) is held; Tell m2 to the new incarnation"}
+	defer func() { w.put(out) }()
+	ctx := context.Background()
+	sys, err := vdNewSystem("c01inflight")
+	if err != nil {
+		out.Why = err.Error()
+		return
+	}
+	defer sys.Stop(ctx)
+	rec := newVdRecorder()
+	pid, err := sys.Spawn(ctx, "a", &vdActor{rec: rec}, WithLongLived())
+	if err != nil {
+		out.Why = err.Error()
+		return
+	}
+	vdWaitUntil(5*time.Second, func() bool { return pid.schedState.Load() == dispatchIdle && rec.inHandler.Load() == 0 })
+	m1 := &vdMsg{ID: 1, Entered: make(chan struct{}), Block: make(chan struct{})}
+	var once sync.Once
+	rel := func() { once.Do(func() { close(m1.Block) }) }
+	defer rel()
+	if err := Tell(ctx, pid, m1); err != nil {
+		out.Why = err.Error()
+		return
+	}
+	if !vdWait(m1.Entered, 15*time.Second) {
+		out.Why = "m1 not handled"
+		return
+	}
+	done := make(chan error, 1)
+	go func() { done <- pid.Restart(ctx) }()
+	// while Receive(m1) is held: keep offering a message to whatever incarnation accepts it
+	m2 := &vdMsg{ID: 2}
+	told := false
+	deadline := time.Now().Add(700 * time.Millisecond)
+	returned := false
+	for time.Now().Before(deadline) && rec.overlaps.Load() == 0 {
+		if !told && Tell(ctx, pid, m2) == nil {
+			told = true
+		}
+		select {
+		case <-done:
+			returned = true
+		default:
+		}
+		if returned {
+			break
+		}
+		time.Sleep(2 * time.Millisecond)
+	}
+	out.Completed = true
+	out.StateDuring = c01StateName(pid.schedState.Load())
+	out.RestartWaited = !returned
+	time.Sleep(20 * time.Millisecond)
+	out.MaxConcurrent = rec.maxConc.Load()
+	out.Overlap = rec.overlaps.Load() > 0
+	rec.mu.Lock()
+	out.OverlapAt = append([]string(nil), rec.overlapAt...)
+	rec.mu.Unlock()
+	rel()
+	if !returned {
+		select {
+		case <-done:
+		case <-time.After(20 * time.Second):
+			out.Why = "Restart did not return after the in-flight Receive ended"
+		}
+	}
+	if !out.Overlap {
+		out.MaxConcurrent = rec.maxConc.Load()
+		out.Overlap = rec.overlaps.Load() > 0
+	}
+	c, _ := rec.snapshot()
+	out.HandledOnce = c[1] == 1 && c[2] <= 1
+}
+
+// ---------------------------------------------------------------- grain: failed deactivation mid-turn, then re-activation
+type c01GrainReactOut struct {
+	Scenario      string   `json:"scenario"`
+	Completed     bool     `json:"completed"`
+	Why           string   `json:"why"`
+	Overlap       bool     `json:"overlap"`
+	MaxConcurrent int32    `json:"max_concurrent"`
+	OverlapAt     []string `json:"overlap_at"`
+	Deactivations int32    `json:"deactivations"`
+	Activations   int32    `json:"activations"`
+	StateDuring   string   `json:"state_while_onreceive_in_flight"`
+}
+
+// TestVerifC01GrainReactivation: hold#0 in OnReceive; PoisonPill and hold#1 queued behind it; hold#0 returns;
+// the same turn runs the pill (OnDeactivate fails: the grain process is kept, inactive) and goes on into hold#1;
+// a new TellGrain re-activates the same grain process. Its OnReceive must wait for hold#1.
+func TestVerifC01GrainReactivation(t *testing.T) {
+	w := newVerifWriter(t, "c01_grain_react_out.jsonl")
+	defer w.close()
+	out := c01GrainReactOut{Scenario: "hold#0 | PoisonPill (OnDeactivate fails) | hold#1 in one turn; TellGrain re-activates during hold#1"}
+	defer func() { w.put(out) }()
+	ctx := context.Background()
+	sys, err := vdNewSystem("c01grainreact")
+	if err != nil {
+		out.Why = err.Error()
+		return
+	}
+	defer sys.Stop(ctx)
+	rec := newVdRecorder()
+	g := &vdGrain{rec: rec, failDeactivate: true}
+	id, err := sys.GrainIdentity(ctx, "g1", func(context.Context) (Grain, error) { return g, nil }, WithLongLivedGrain())
+	if err != nil {
+		out.Why = err.Error()
+		return
+	}
+	x := sys.(*actorSystem)
+	tell := func(m any) { go func() { _ = sys.TellGrain(ctx, id, m) }() }
+	h0 := &vdMsg{ID: 10, Entered: make(chan struct{}), Block: make(chan struct{})}
+	h1 := &vdMsg{ID: 11, Entered: make(chan struct{}), Block: make(chan struct{})}
+	var o0, o1 sync.Once
+	defer o0.Do(func() { close(h0.Block) })
+	defer o1.Do(func() { close(h1.Block) })
+	tell(h0)
+	if !vdWait(h0.Entered, 15*time.Second) {
+		out.Why = "hold#0 not handled"
+		return
+	}
+	pid, err := x.ensureGrainProcess(ctx, id)
+	if err != nil || pid == nil {
+		out.Why = "no grain process"
+		return
+	}
+	tell(new(PoisonPill))
+	if !vdWaitUntil(10*time.Second, func() bool { return pid.mailbox.Len() >= 1 }) {
+		out.Why = "pill not queued"
+		return
+	}
+	tell(h1)
+	if !vdWaitUntil(10*time.Second, func() bool { return pid.mailbox.Len() >= 2 }) {
+		out.Why = "hold#1 not queued"
+		return
+	}
+	o0.Do(func() { close(h0.Block) })
+	if !vdWait(h1.Entered, 15*time.Second) {
+		out.Why = "the turn did not go on into hold#1 after the failed deactivation (the scenario does not apply)"
+		out.Deactivations = g.deactivations.Load()
+		return
+	}
+	out.Deactivations = g.deactivations.Load()
+	before := g.activations.Load()
+	p := &vdMsg{ID: 12, Entered: make(chan struct{})}
+	tell(p)
+	early := vdWait(p.Entered, 700*time.Millisecond)
+	out.Completed = g.activations.Load() > before || early
+	if !out.Completed {
+		out.Why = "the grain process was not re-activated by the new message"
+	}
+	out.StateDuring = c01StateName(pid.schedState.Load())
+	out.Activations = g.activations.Load()
+	out.MaxConcurrent = rec.maxConc.Load()
+	out.Overlap = early && rec.overlaps.Load() > 0
+	rec.mu.Lock()
+	out.OverlapAt = append([]string(nil), rec.overlapAt...)
+	rec.mu.Unlock()
+	o1.Do(func() { close(h1.Block) })
+	vdWait(p.Entered, 10*time.Second)
+}
